@@ -56,6 +56,8 @@ func runC14(c *Ctx) {
 	ruleChainScratch(c, p, "C14.chain-scratch")
 	ruleAllColumns(c, p, "C14.all-columns")
 	ruleAssertSiblings(c, p, "C14.assert-siblings")
+	ruleVersionArgs(c, p, "C14.version")
+	ruleHeaderEveryColumn(c, p, "C14.descriptor")
 	for _, cfg := range c.Configs() {
 		if pc := c.Prog(cfg); pc != nil {
 			ruleBufGrowByAppend(c, pc, "C14.grow")
